@@ -15,6 +15,7 @@ type prog struct {
 	vars  []string
 	decls []m.Decl
 	body  []m.N
+	pre   *prog // a program run before this one on the same runtime (an earlier Run call)
 }
 
 func (p *prog) add(ns ...m.N)         { p.body = append(p.body, ns...) }
@@ -266,6 +267,11 @@ func genFn(c *h.Ctx) {
 		// sometimes merge a second scenario into the same program (independent names are not guaranteed:
 		// that is fine, both sides see the same program)
 		sxp, _ := m.Program(p.vars, p.decls, p.body, r.Intn(3))
+		if p.pre != nil {
+			sx0, _ := m.Program(p.pre.vars, p.pre.decls, p.pre.body, r.Intn(3))
+			c.Add("fn2 20000 "+sx0+" "+sxp, "fn:"+sc.name)
+			continue
+		}
 		c.Add("fn 20000 "+sxp, "fn:"+sc.name)
 	}
 }
